@@ -5,6 +5,7 @@
    per-sample method commute with permuting, subsetting and duplicating its inputs.  Only statements. *)
 From Xpl Require Import Base.Tensor.
 From Xpl Require C03.Proofs C06.Spec C06.Proofs C04.Spec C04.Proofs C09.Spec C09.Proofs C14.Spec C14.Proofs.
+From Xpl Require C01.Model C01.Spec C01.Proofs C08.Model C08.Spec C08.Proofs C15.Model C15.Spec C15.Proofs.
 Open Scope Qc_scope.
 
 (* ---- generic: row-wise evaluation batch by batch = evaluation at once, for every batch size ---- *)
@@ -71,6 +72,41 @@ Theorem C03_deletion_insertion_batch_invariant :
     C14.Model.evaluate score rank c bs bm xs ts es = C14.Model.evaluate score rank c bs' bm xs ts es.
 Proof. exact C14.Proofs.causal_batch_invariant. Qed.
 Print Assumptions C03_deletion_insertion_batch_invariant.
+
+
+(* ---- Saliency, GradientInput, SmoothGrad / SquareGrad / VarGrad (given the noise, in particular noise 0) ---- *)
+Theorem C03_gradient_methods_batch_invariant :
+  forall (grad : list Qc -> list Qc -> list Qc) k r st bs bs' nb xs ts noises,
+    C01.Spec.shape_preserving grad -> C06.Proofs.bs_ok bs -> C06.Proofs.bs_ok bs' -> (1 <= nb)%nat ->
+    (st = C01.Model.SVar -> (2 <= nb)%nat) -> C01.Spec.noises_ok nb (C01.Proofs.rows xs ts noises) ->
+    C01.Model.saliency grad k r bs xs ts = C01.Model.saliency grad k r bs' xs ts /\
+    C01.Model.gradient_input grad k r bs xs ts = C01.Model.gradient_input grad k r bs' xs ts /\
+    C01.Model.gradstat grad k r st bs nb xs ts noises = C01.Model.gradstat grad k r st bs' nb xs ts noises.
+Proof. exact C01.Proofs.batch_invariant. Qed.
+Print Assumptions C03_gradient_methods_batch_invariant.
+
+(* ---- Sobol / HSIC: the map is the estimator of the scores of the perturbed inputs whatever the forward batch size;
+        HSIC also whatever estimator_batch_size ---- *)
+Theorem C03_gsa_batch_invariant :
+  forall (score : list Qc -> list Qc -> Qc) (est : list Qc -> list Qc) pf g H W C bs bs' masks xs ts,
+    C08.Spec.bs_valid bs -> C08.Spec.bs_valid bs' ->
+    C08.Model.gsa_explain score est pf g H W C bs masks xs ts = C08.Model.gsa_explain score est pf g H W C bs' masks xs ts.
+Proof. intros. rewrite !C08.Proofs.gsa_explain_correct by assumption. reflexivity. Qed.
+Print Assumptions C03_gsa_batch_invariant.
+
+Theorem C03_hsic_estimator_batch_invariant :
+  forall gramf ebs ebs' dims L n, (1 <= ebs)%nat -> (1 <= ebs')%nat ->
+    C08.Model.hsic_estimator gramf ebs dims L n = C08.Model.hsic_estimator gramf ebs' dims L n.
+Proof. exact C08.Proofs.hsic_batch_invariant. Qed.
+Print Assumptions C03_hsic_estimator_batch_invariant.
+
+(* ---- MuFidelity (given its random subsets) ---- *)
+Theorem C03_mufidelity_batch_invariant :
+  forall (score : list Qc -> list Qc -> Qc) bm c cphi bs bs' nb rows,
+    C06.Proofs.bs_ok bs -> C06.Proofs.bs_ok bs' -> (1 <= nb)%nat -> (forall r, In r rows -> length (C15.Model.rm r) = nb) ->
+    forall sqrt, C15.Model.mufid score bm c cphi sqrt bs nb rows = C15.Model.mufid score bm c cphi sqrt bs' nb rows.
+Proof. exact C15.Proofs.mufid_batch_invariant. Qed.
+Print Assumptions C03_mufidelity_batch_invariant.
 
 Close Scope Qc_scope. Open Scope nat_scope.
 Example C03_nonvacuous :
